@@ -470,7 +470,9 @@ func (c10) Eval(t *testing.T, c *Case, dec func(int) *Decider) *Outcome {
 		if c.Tier == "thorough" {
 			p = 0.12
 		}
-		if Sub(c.Seed, "strace").Bool(p) {
+		if Sub(c.Seed, "strace").Bool(p) && straceTierAllowed(o) {
+			govT0 := time.Now()
+			defer func() { govSpent += time.Since(govT0) }()
 			runs, kills := 0, 0
 			// in half of these scenarios the first rename of the process fails with an errno
 			// for which a "fallback" is conceivable (table is a mount point, other device,
